@@ -33,8 +33,8 @@ package jd
 
 //@ contract JsonNode.Equals
 //@   requires validNode(self) && validNode(n)
-//@   ensures [C04] ret0 == specEq(self, n, options)
-//@   carries C04 C15
+//@   ensures [C04 C03] ret0 == specEq(self, n, options)
+//@   carries C04 C15 C03
 
 //@ contract (jsonList).Equals
 //@   loop "range l1" invariant specEqList(l1[:idx], l2[:idx], options)
@@ -725,6 +725,14 @@ package jd
 //@   requires validNode(a) && validNode(b)
 //@   ensures_bounded ret0 == ""
 //@   carries C14
+
+//@ contract verifListOfObjects
+//@   bounded
+//@   universe a verifKeyedDocs(0)
+//@   universe b verifKeyedDocs(0)
+//@   requires validNode(a) && validNode(b)
+//@   ensures_bounded ret0 == ""
+//@   carries C06 C07
 
 //@ contract verifRandPure
 //@   bounded
